@@ -369,9 +369,26 @@ services=["ipp"]
 			oc.Close()
 			req = req[cut:]
 		}
+		replyOverlap := p.Overlap && k%2 == 1
+		if replyOverlap {
+			// a slow receiver: the service can hand over 48 bytes of its reply at a time; while it is in the middle
+			// of it another client's complete exchange is served
+			cc.SetWindow(48)
+		}
 		if _, err := cc.Write(req); err != nil {
 			ob.Err = "write: " + err.Error()
 		} else {
+			if replyOverlap {
+				time.Sleep(3 * time.Millisecond)
+				other := mkIPP(b.Seed, p.Offset+k+700000)
+				oc := srv.L.DialTCP(lab.TCPAddr("10.0.0.1", 631), lab.TCPAddr("203.0.113.98", port))
+				oc.SetDeadline(time.Now().Add(5 * time.Second))
+				oc.Write(gen.HTTPRequest("POST", "/printers/z", [][2]string{{"Host", "printer.test"}, {"Content-Type", "application/ipp"}}, other.encode(), false))
+				if resp, err := http.ReadResponse(bufio.NewReader(oc), nil); err == nil {
+					io.ReadAll(resp.Body)
+				}
+				oc.Close()
+			}
 			resp, err := http.ReadResponse(bufio.NewReader(cc), nil)
 			if err != nil {
 				ob.Err = "read: " + err.Error()
@@ -387,15 +404,15 @@ services=["ipp"]
 		cc.Close()
 		lab.Events.WaitFor(ev0, func(evs []lab.Captured) bool {
 			for _, e := range evs {
-				if sp, _ := lab.Int(e.Rec, "source-port"); int(sp) == port {
+				if sp, _ := lab.Int(e.Rec, "source-port"); int(sp) == port && lab.Str(e.Rec, "source-ip") == "203.0.113.7" {
 					return true
 				}
 			}
 			return false
 		}, 2*time.Second)
 		for _, e := range lab.Events.Since(ev0) {
-			if sp, _ := lab.Int(e.Rec, "source-port"); int(sp) != port {
-				continue
+			if sp, _ := lab.Int(e.Rec, "source-port"); int(sp) != port || lab.Str(e.Rec, "source-ip") != "203.0.113.7" {
+				continue // (the other client of an overlapped exchange uses the same port number from another address)
 			}
 			if lab.Str(e.Rec, "category") == "ipp" {
 				ob.Event = true
